@@ -279,7 +279,7 @@ theorem findSubroutines_inv {song : Song} {Xl : List Event} {subId : Int} {bm : 
 
 /-- `Array.qsort` returns a permutation of its input.  A fact about the core library's in-place
 quicksort that is used as an explicit hypothesis below (its worker functions are private to
-`Init.Data.Array.QSort`; `qsortPerm_of_core` in `Proofs/OptQSort.lean` discharges it if present). -/
+`Init.Data.Array.QSort`; `qsortPerm_of_core` in `Proofs/OptQSort.lean` discharges it). -/
 def QSortPerm : Prop :=
   ∀ l : List (Nat × List Event), ((l.toArray.qsort (fun a b => a.1 < b.1)).toList).Perm l
 
